@@ -10,7 +10,11 @@
 //! The dial future is polled by hand, so the payload fixes the whole schedule.
 //!
 //! payload: `<prefer> <host> <imm4> <imm6> <schedule>`
-//!   prefer   = `4` | `6`                       preferred family (`prefer_ipv6`)
+//!   prefer   = `4` | `6` [+ path letter]       preferred family (`prefer_ipv6`) and the call path:
+//!              none = `dial_happy_eyeballs` itself; `d` = the client builder's `dial_url` without
+//!              proxy; `p` = `dial_url` through an HTTP proxy (`dial_url_proxy`: the host/resolver/
+//!              connector then concern the proxy, a peer thread answers the `CONNECT` with 200);
+//!              `q` = the same, the proxy answers 403
 //!   host     = `dom` | `v4:<id>` | `v6:<id>` | `noport`
 //!   imm4/6   = `-` | <res>                     reply the resolver gives at once when asked
 //!   res      = `ok[.<id>]*` | `e<code>`
@@ -298,6 +302,8 @@ fn dial_err_class(e: &DialError) -> String {
     }
     match e {
         DialError::InvalidTargetPort { .. } => "port".into(),
+        DialError::ProxyInvalidTargetPort { .. } => "proxyport".into(),
+        DialError::ProxyConnectInvalidStatus { status, .. } => format!("proxystatus.{}", status.as_u16()),
         DialError::Dns { source, .. } => format!("dns.{}", dns(source)),
         DialError::Timeout { .. } => "dto".into(),
         DialError::Io { source, .. } => format!("io.{source}"),
@@ -305,7 +311,37 @@ fn dial_err_class(e: &DialError) -> String {
     }
 }
 
-fn run_case(prefer_v6: bool, host: &str, imm: [Option<Res>; 2], groups: &[Vec<Ev>]) -> Run {
+#[derive(Clone, Copy, Debug, PartialEq)]
+enum PathKind {
+    Hook,
+    Direct,
+    Proxy(u16),
+}
+
+/// The proxy on the other end of the pre-connected socket: answers one `CONNECT`.
+fn proxy_peer(listener: std::net::TcpListener, status: u16) -> std::thread::JoinHandle<Option<String>> {
+    std::thread::spawn(move || {
+        use std::io::{Read, Write};
+        listener.set_nonblocking(false).ok()?;
+        let (mut sock, _) = listener.accept().ok()?;
+        let mut buf = vec![];
+        let mut tmp = [0u8; 512];
+        while !buf.windows(4).any(|w| w == b"\r\n\r\n") {
+            let n = sock.read(&mut tmp).ok()?;
+            if n == 0 {
+                return None;
+            }
+            buf.extend_from_slice(&tmp[..n]);
+        }
+        let reason = if status == 200 { "OK" } else { "Forbidden" };
+        sock.write_all(format!("HTTP/1.1 {status} {reason}\r\n\r\n").as_bytes()).ok()?;
+        // keep the socket until the client lets go
+        let _ = sock.read(&mut tmp);
+        Some(String::from_utf8_lossy(&buf).lines().next().unwrap_or("").to_string())
+    })
+}
+
+fn run_case(prefer_v6: bool, path: PathKind, host: &str, imm: [Option<Res>; 2], groups: &[Vec<Ev>]) -> Run {
     let url = match host {
         "dom" => "https://relay.example.test/".to_string(),
         "noport" => "unknown://relay.example.test/".to_string(),
@@ -318,12 +354,16 @@ fn run_case(prefer_v6: bool, host: &str, imm: [Option<Res>; 2], groups: &[Vec<Ev
     let wants_ok = groups.iter().flatten().any(|e| matches!(e, Ev::Dial(_, Ok(()))));
     let mut pool = vec![];
     let mut _listener = None;
+    let mut peer = None;
     if wants_ok {
         let l = std::net::TcpListener::bind((Ipv4Addr::LOCALHOST, 0)).expect("bind");
         let s = std::net::TcpStream::connect(l.local_addr().unwrap()).expect("connect");
         s.set_nonblocking(true).unwrap();
         pool.push(s);
-        _listener = Some(l);
+        match path {
+            PathKind::Proxy(status) => peer = Some(proxy_peer(l, status)),
+            _ => _listener = Some(l),
+        }
     }
     let rt = tokio::runtime::Builder::new_current_thread().enable_all().start_paused(true).build().unwrap();
     let res = rt.block_on(async {
@@ -351,11 +391,38 @@ fn run_case(prefer_v6: bool, host: &str, imm: [Option<Res>; 2], groups: &[Vec<Ev
             let i = w.attempts.len() - 1;
             Box::pin(DialFut { i, sh: sh2.clone() }) as verif_dial_hooks::ConnectFuture
         })));
-        let mut fut = pin!(tokio::task::unconstrained(verif_dial_hooks::dial_happy_eyeballs(&resolver, &url, prefer_v6)));
+        // `Ok(Some(stream))` from the dialer itself, `Ok(None)` from the builder's `dial_url`
+        type DialOut = Result<Option<TcpStream>, DialError>;
+        let target: url::Url = "https://relay.example.test/".parse().unwrap();
+        let inner: Pin<Box<dyn Future<Output = DialOut> + '_>> = match path {
+            PathKind::Hook => Box::pin(async { verif_dial_hooks::dial_happy_eyeballs(&resolver, &url, prefer_v6).await.map(Some) }),
+            PathKind::Direct => Box::pin(async {
+                verif_dial_hooks::dial_url(url.clone(), resolver.clone(), None, prefer_v6, iroh_relay::tls::make_dangerous_client_config())
+                    .await
+                    .map(|proxied| {
+                        assert!(!proxied);
+                        None
+                    })
+            }),
+            PathKind::Proxy(_) => Box::pin(async {
+                // the proxy URL is what gets resolved and dialed; http scheme: no TLS to the proxy
+                let mut proxy = url.clone();
+                if proxy.scheme() == "https" {
+                    proxy.set_scheme("http").unwrap();
+                }
+                verif_dial_hooks::dial_url(target.clone(), resolver.clone(), Some(proxy), prefer_v6, iroh_relay::tls::make_dangerous_client_config())
+                    .await
+                    .map(|proxied| {
+                        assert!(proxied);
+                        None
+                    })
+            }),
+        };
+        let mut fut = pin!(tokio::task::unconstrained(inner));
         let flag = Arc::new(Flag { set: AtomicBool::new(true), main: Mutex::new(None) });
         let waker = Waker::from(flag.clone());
         let now_ms = || (Instant::now() - t0).as_millis() as u64;
-        let mut result: Option<(Result<TcpStream, DialError>, u64, usize)> = None;
+        let mut result: Option<(DialOut, u64, usize)> = None;
         macro_rules! poll_quiescent {
             ($g:expr) => {
                 while result.is_none() && flag.set.swap(false, Ordering::SeqCst) {
@@ -421,6 +488,16 @@ fn run_case(prefer_v6: bool, host: &str, imm: [Option<Res>; 2], groups: &[Vec<Ev
                 }
             }
             poll_quiescent!(g);
+            // an attempt connected but `dial_url` has not returned: the CONNECT exchange with the
+            // proxy peer is real socket I/O; drive it to its end before anything else happens
+            while result.is_none() && shared.lock().unwrap().attempts.iter().any(|a| a.local_port.is_some()) {
+                std::future::poll_fn(|cx| {
+                    *flag.main.lock().unwrap() = Some(cx.waker().clone());
+                    if flag.set.load(Ordering::SeqCst) { Poll::Ready(()) } else { Poll::Pending }
+                })
+                .await;
+                poll_quiescent!(g);
+            }
         }
         verif_dial_hooks::set_connector(None);
         let end_ms = result.as_ref().map(|r| r.1).unwrap_or_else(now_ms);
@@ -428,10 +505,12 @@ fn run_case(prefer_v6: bool, host: &str, imm: [Option<Res>; 2], groups: &[Vec<Ev
         let mut w = shared.lock().unwrap();
         let outcome = match &result {
             None => Outcome::Pending,
-            Some((Ok(stream), _, _)) => {
+            Some((Ok(Some(stream)), _, _)) => {
                 let port = stream.local_addr().ok().map(|a| a.port());
                 Outcome::Ok(w.attempts.iter().position(|a| a.local_port.is_some() && a.local_port == port))
             }
+            // through the builder the stream is not handed back: the attempt that was given the socket
+            Some((Ok(None), _, _)) => Outcome::Ok(w.attempts.iter().position(|a| a.local_port.is_some())),
             Some((Err(e), _, _)) => Outcome::Err(dial_err_class(e)),
         };
         let attempts = std::mem::take(&mut w.attempts);
@@ -446,17 +525,31 @@ fn run_case(prefer_v6: bool, host: &str, imm: [Option<Res>; 2], groups: &[Vec<Ev
         }
     });
     verif_dial_hooks::set_connector(None);
+    drop(rt);
+    if let Some(p) = peer {
+        // the peer ends once the client side is gone; a dial that never connected leaves it in accept()
+        if res.attempts.iter().any(|a| a.local_port.is_some()) {
+            if let Ok(Some(line)) = p.join() {
+                res_check_connect_line(&line);
+            }
+        }
+    }
     res
 }
 
+fn res_check_connect_line(line: &str) {
+    assert!(line.starts_with("CONNECT relay.example.test:443"), "unexpected request line {line}");
+}
+
 /// Oracle: the statement of C15 evaluated on the observed attempt log and result.
-fn oracle(prefer_v6: bool, host: &str, run: &Run, ex: &mut Exec) {
+fn oracle(prefer_v6: bool, path: PathKind, host: &str, run: &Run, ex: &mut Exec) {
     let pref: u8 = if prefer_v6 { 6 } else { 4 };
     if run.attempts.iter().any(|a| a.unaligned) {
         ex.violation("harness-unaligned-time", "an attempt started off the millisecond grid");
     }
     if host == "noport" {
-        if run.outcome != Outcome::Err("port".into()) || !run.attempts.is_empty() {
+        let want = if matches!(path, PathKind::Proxy(_)) { "proxyport" } else { "port" };
+        if run.outcome != Outcome::Err(want.into()) || !run.attempts.is_empty() {
             ex.violation("noport-not-rejected", format!("{:?}", run.outcome));
         }
         return;
@@ -490,7 +583,15 @@ fn oracle(prefer_v6: bool, host: &str, run: &Run, ex: &mut Exec) {
     }
     // first success is returned, at once
     let first_ok = run.attempts.iter().enumerate().filter(|(_, a)| matches!(a.accepted, Some((Ok(()), _)))).min_by_key(|(_, a)| a.accepted.as_ref().unwrap().1);
+    let refused = matches!(path, PathKind::Proxy(st) if st != 200);
     match (&run.outcome, first_ok) {
+        // the proxy refused the tunnel: the dial succeeded, the builder reports the proxy's status
+        (Outcome::Err(c), Some((_, a))) if refused => {
+            if c != "proxystatus.403" || a.accepted.as_ref().unwrap().1 != run.end_ms {
+                ex.violation("proxy-refusal-not-reported", format!("{c} at {}", run.end_ms));
+            }
+            return;
+        }
         (Outcome::Ok(Some(i)), Some((j, a))) => {
             if *i != j || a.accepted.as_ref().unwrap().1 != run.end_ms {
                 ex.violation("not-first-success", format!("returned attempt {i} at {}, attempt {j} succeeded at {}", run.end_ms, a.accepted.as_ref().unwrap().1));
@@ -583,6 +684,9 @@ impl Prop for C15 {
         out.push("4 dom - - r6=ok.7,a50,r4=ok.1,r6=ok.8,a250,a250,a250".into());
         out.push("4 dom ok.1.2 - a250,r6=ok.7,a250,a250,a250".into());
         out.push("4 noport - - a10".into());
+        out.push("6d noport - - a10".into());
+        out.push("4p noport - - a10".into());
+        out.push("6q noport - - c0=ok".into());
         for p in ["4", "6"] {
             for h in ["v4:5", "v6:9"] {
                 out.push(format!("{p} {h} - - c0=ok"));
@@ -607,8 +711,22 @@ impl Prop for C15 {
             out.push(format!("{p} dom ok.1.2 ok.7.8 a250,a250,a250,a1500,a250,a250,a250"));
             out.push(format!("{p} dom ok.1.2 ok.7.8 a250,a250,c1=ok"));
         }
+        // the same witnesses and boundary cases through the builder's direct and proxy paths
+        let base: Vec<String> = out.clone();
+        for (k, line) in base.iter().enumerate() {
+            let (pf, rest) = line.split_once(' ').unwrap();
+            if pf.len() == 1 {
+                let letter = ["d", "p", "p", "q"][k % 4];
+                out.push(format!("{pf}{letter} {rest}"));
+            }
+        }
         while out.len() < n {
-            let p = if rng.bool() { "4" } else { "6" };
+            let p = match rng.below(20) {
+                0..=9 => if rng.bool() { "4" } else { "6" },
+                10..=13 => if rng.bool() { "4d" } else { "6d" },
+                14..=18 => if rng.bool() { "4p" } else { "6p" },
+                _ => if rng.bool() { "4q" } else { "6q" },
+            };
             let host = match rng.below(12) {
                 0 => format!("v4:{}", rng.below(1000)),
                 1 => format!("v6:{}", rng.below(1000)),
@@ -664,11 +782,17 @@ impl Prop for C15 {
 
     fn execute(&mut self, payload: &str) -> Exec {
         let toks: Vec<&str> = payload.split(' ').collect();
-        let prefer_v6 = toks[0] == "6";
+        let prefer_v6 = toks[0].starts_with('6');
+        let path = match toks[0].get(1..) {
+            Some("d") => PathKind::Direct,
+            Some("p") => PathKind::Proxy(200),
+            Some("q") => PathKind::Proxy(403),
+            _ => PathKind::Hook,
+        };
         let host = toks[1];
         let imm = [toks[2], toks[3]].map(|t| if t == "-" { None } else { Some(parse_res(t)) });
         let groups: Vec<Vec<Ev>> = if toks[4] == "-" { vec![] } else { toks[4].split(',').map(|g| g.split('+').map(parse_ev).collect()).collect() };
-        let run = run_case(prefer_v6, host, imm, &groups);
+        let run = run_case(prefer_v6, path, host, imm, &groups);
         let join = |v: Vec<String>| if v.is_empty() { "-".to_string() } else { v.join(",") };
         let res = match &run.outcome {
             Outcome::Ok(Some(i)) => format!("ok.{i}@{}", run.end_ms),
@@ -682,7 +806,8 @@ impl Prop for C15 {
             join(run.calls.iter().map(|c| format!("{}@{}", c.0, c.1)).collect())
         );
         let mut ex = Exec::new(out);
-        oracle(prefer_v6, host, &run, &mut ex);
+        oracle(prefer_v6, path, host, &run, &mut ex);
+        ex.tags.push(format!("path-{}", match path { PathKind::Hook => "dialer", PathKind::Direct => "dial_url", PathKind::Proxy(200) => "proxy", PathKind::Proxy(_) => "proxy-refused" }));
         let _ = run.end_group;
         ex.nontrivial = run.attempts.len() >= 2;
         ex.tags.push(format!("attempts-{}", run.attempts.len().min(5)));
